@@ -19,10 +19,21 @@ Print Assumptions C18_added_service_is_new.
 (* a renamed service (same request prefix, unknown name) is reported as renamed *)
 Theorem C18_renamed_service_is_reported : forall news olds s s_old,
   In s news -> mem_name (sv_name s) olds = false ->
-  find_by_prefix (sv_prefix s) olds = Some s_old ->
+  rename_partner news (sv_prefix s) olds = Some s_old ->
   In (sv_name s, sv_name s_old) (r_renamed (compare_layers news olds)).
 Proof. exact renamed_service_is_reported. Qed.
 Print Assumptions C18_renamed_service_is_reported.
+
+(* ... and for an actual rename edit (the old service s_old vanished, whatever else shares its
+   request prefix) the reported old name is that of s_old *)
+Theorem C18_rename_edit_is_reported : forall news pre post s s_old,
+  In s news -> mem_name (sv_name s) (pre ++ s_old :: post) = false ->
+  oprefix_eqb (sv_prefix s) (sv_prefix s_old) = true ->
+  mem_name (sv_name s_old) news = false ->
+  (forall o, In o pre -> oprefix_eqb (sv_prefix s) (sv_prefix o) = true -> mem_name (sv_name o) news = true) ->
+  In (sv_name s, sv_name s_old) (r_renamed (compare_layers news (pre ++ s_old :: post))).
+Proof. exact rename_edit_is_reported. Qed.
+Print Assumptions C18_rename_edit_is_reported.
 
 (* every kind of single edit on a concrete layer (add, delete, rename, change) *)
 Theorem C18_single_edits_example :
@@ -30,7 +41,8 @@ Theorem C18_single_edits_example :
   compare_layers (mkSvc 3 (Some [62]) 9 3 :: L) L = mkR [3] [] [] [] /\
   compare_layers L (mkSvc 3 (Some [62]) 9 3 :: L) = mkR [] [3] [] [] /\
   compare_layers [mkSvc 5 (Some [34; 1]) 7 5; mkSvc 2 (Some [16]) 8 2] L = mkR [] [] [(5, 1)] [] /\
-  compare_layers [mkSvc 1 (Some [34; 1]) 70 1; mkSvc 2 (Some [16]) 8 2] L = mkR [] [] [] [1].
+  compare_layers [mkSvc 1 (Some [34; 1]) 70 1; mkSvc 2 (Some [16]) 8 2] L = mkR [] [] [] [1] /\
+  compare_layers [mkSvc 1 (Some [16]) 7 1; mkSvc 5 (Some [16]) 8 5] [mkSvc 1 (Some [16]) 7 1; mkSvc 2 (Some [16]) 8 2] = mkR [] [] [(5, 2)] [].
 Proof. exact compare_examples. Qed.
 Print Assumptions C18_single_edits_example.
 
